@@ -325,7 +325,7 @@ impl Family for FaultFamily {
                 }
                 // either the operation is retried and nothing at all changes for client and shim ...
                 let log: Vec<Cb> = o.log.iter().map(|x| x.1.clone()).collect();
-                if o.res == self.base_res && log == self.base_log && o.sim.out == self.base_out {
+                if o.res == self.base_res && log == self.base_log && after_greeting(&o.sim.out) == after_greeting(&self.base_out) {
                     st.bump("interrupted_retried_transparently");
                     return Ok(());
                 }
